@@ -184,8 +184,10 @@ def chain(kinds: tuple[str, ...] | list[str], leaf: str = LEAF) -> str:
 
 
 def _block_case(source: str, depth: int, partials: dict[str, str] | None = None, shape: Any = None) -> dict[str, Any]:
+    nloops = source.count("{% for i in l %}") + source.count("{% tablerow i in l %}")  # each over 2 items
+    loop_vals = sorted({0, 1, 2, 3, 4, 5} | _around([2 ** j for j in range(1, nloops + 1)]))
     return {"family": "blocks", "source": source, "partials": partials or {}, "data": BLOCK_DATA, "extra": False,
-            "loop_vals": [0, 1, 2, 3, 4, 5, 8, 9], "depth_top": 10 + depth, "block_top": depth + 3, "shape": shape}
+            "loop_vals": loop_vals, "depth_top": 10 + depth, "block_top": depth + 3, "shape": shape}
 
 
 def block_cases(tier: str) -> Iterator[dict[str, Any]]:
@@ -197,8 +199,9 @@ def block_cases(tier: str) -> Iterator[dict[str, Any]]:
             yield _block_case(chain(ks), d, shape={"chain": list(ks)})
     for d in range(4, dmax + 1):
         for k in ("if", "capture", "case") if tier == "quick" else kinds:
+            if k in ("for", "tablerow") and d > 8:
+                continue  # loops multiply their output (2**d cells): loop chains stop at depth 8
             ks = (k,) * d
-            # loops multiply their output; keep deep chains of loops out (2**d cells)
             yield _block_case(chain(ks), d, shape={"chain": [k, d]})
     # branches (else / elsif / when): every branch kind at each position of a depth-2 and depth-3 chain
     for b in BRANCH_KINDS:
